@@ -60,14 +60,17 @@ theorem freed_iff_no_holder {s : State} (hr : DReach s) (h : Nat) (hw : (s.hdl h
     | false => have := hi.hL h hw hfr; omega
 
 /-- only `unref` — explicit, or the library key's destructor at thread end — frees a handle anybody ever held; the only
-    other free is the one inside a creation that fails (`create_fail_releases_once`: a block nobody was given) -/
+    other frees are the ones inside a creation / a `p_uthread_current` that fails (`create_fail_releases_once`,
+    `current_fail_releases_once`: a block nobody was given) -/
 theorem free_only_by_unref {s s' : State} {e : Ev} (hs : step s e = .ok s') (hne : s'.freeLog ≠ s.freeLog) :
-    (∃ a h, e = .unref a h) ∨ (∃ t, e = .threadEnd t) ∨ (∃ a, e = .createFail a) := by
+    (∃ a h, e = .unref a h) ∨ (∃ t, e = .threadEnd t) ∨ (∃ a, e = .createFail a) ∨ (∃ t, e = .currentFail t) := by
   apply Classical.byContradiction
   intro hc
   have hc' := not_or.mp hc
   have hc'' := not_or.mp hc'.2
-  exact hne (freeLog_frame hs (fun a h e' => hc'.1 ⟨a, h, e'⟩) (fun t e' => hc''.1 ⟨t, e'⟩) (fun a e' => hc''.2 ⟨a, e'⟩))
+  have hc3 := not_or.mp hc''.2
+  exact hne (freeLog_frame hs (fun a h e' => hc'.1 ⟨a, h, e'⟩) (fun t e' => hc''.1 ⟨t, e'⟩) (fun a e' => hc3.1 ⟨a, e'⟩)
+    (fun t e' => hc3.2 ⟨t, e'⟩))
 
 /-- an explicit `unref` frees the handle iff it drops the last reference (the count it sees is 1 = the
     number of holders), and then it frees exactly that handle -/
@@ -179,6 +182,43 @@ theorem join_fail_code {s s' : State} {a h : Nat} (hr : Reach s) (hs : step s (.
   have hlink := hi.hO h ho
   have hjc := hi.jC _ h hlink
   exact ⟨rfl, hj, ho, hlink, fun hp => (hjc.1 hp).1, hjc.2, rfl, rfl, rfl, rfl, rfl⟩
+
+/-- `p_uthread_current` of a thread without a stored handle, when the fresh handle cannot be stored (the lazy creation of
+    the library key's native key fails): NULL, and the `PUThreadBase` block allocated meanwhile is released exactly once
+    inside the call; the thread still has no handle, nothing else changed -/
+theorem current_fail_releases_once {s s' : State} {t : Nat} (hr : Reach s) (hs : step s (.currentFail t) = .ok s') :
+    s'.freeLog = s.freeLog ++ [s.nH] ∧ s.nH ∉ s.freeLog ∧ s'.freeLog.Nodup ∧
+    (s'.hdl s.nH).freed = true ∧ holders (s'.hdl s.nH) = 0 ∧ valueOf s t 0 = 0 ∧ valueOf s' t 0 = 0 ∧
+    s'.nH = s.nH + 1 ∧ s'.thr = s.thr ∧ s'.spin = s.spin ∧ (∀ h, h ≠ s.nH → s'.hdl h = s.hdl h) ∧
+    s'.tls = s.tls ∧ s'.key = s.key ∧ s'.nkey = s.nkey ∧ s'.dtorLog = s.dtorLog ∧ s'.curLog = s.curLog := by
+  have hr' : Reach s' := .step _ hr hs
+  have hv : valueOf s t 0 = 0 := by
+    simp only [step, currentFail] at hs
+    split at hs
+    · cases hs
+    · split at hs
+      · cases hs
+      · split at hs
+        · cases hs
+        · rename_i hv; simpa using hv
+  obtain ⟨_, _, rfl⟩ := currentFail_ok hs
+  have hnot : s.nH ∉ s.freeLog := by
+    intro hm
+    have := (hr.inv.2.fL s.nH).mp hm
+    rw [hr.inv.2.hB s.nH (Nat.le_refl _)] at this; cases this
+  refine ⟨rfl, hnot, hr'.inv.2.fN, by simp, by simp [holders], hv, hv, rfl, rfl, rfl, ?_, rfl, rfl, rfl, rfl, rfl⟩
+  intro h hne; simp only; rw [upd_ne _ _ hne]
+
+/-- a TLS call on a key without a native key whose `pthread_key_create` fails is a no-op: `set` / `replace` store nothing
+    and call no notifier, `get` yields NULL (the cell is NULL: nothing was ever stored under that key); no native key
+    exists afterwards, nothing is published (the next call tries again), no block is left -/
+theorem tls_fail_changes_nothing {s s' : State} {t k : Nat} {g : Bool} (hs : step s (.tlsFail t k g) = .ok s') :
+    (s.key k).published = none ∧ (∀ t', valueOf s t' k = 0) ∧
+    s'.getLog = s.getLog ++ (if g then [(t, k, 0)] else []) ∧
+    s'.dtorLog = s.dtorLog ∧ s'.tls = s.tls ∧ s'.key = s.key ∧ s'.nkey = s.nkey ∧ s'.nN = s.nN ∧
+    s'.blockFreeLog = s.blockFreeLog ∧ s'.keyDelLog = s.keyDelLog ∧ s'.hdl = s.hdl ∧ s'.thr = s.thr ∧ s'.freeLog = s.freeLog := by
+  obtain ⟨_, _, _, _, hp, rfl⟩ := tlsFail_ok hs
+  exact ⟨hp, fun t' => by simp [valueOf, hp], rfl, rfl, rfl, rfl, rfl, rfl, rfl, rfl, rfl, rfl, rfl⟩
 
 /-! ## join and exit code -/
 
@@ -668,6 +708,23 @@ example : (match run init [.spawn, .createBegin 0 true false] with
 /-- the failing join is an event only for joinable handles (on a detached one the native call is not made) -/
 example : (match run init [.createBegin 0 false false, .createEnd 0] with
     | .ok s => step s (.joinFail 0 0) | .error e => .error e) = .error .notEnabled := by rfl
+
+/-- a key whose native key cannot be made: `set 5` stores nothing, `get` reads NULL, `replace` calls no notifier; once the
+    creation works the key behaves as new.  `p_uthread_current` of the initial thread failing twice: handles 0 and 1 are
+    the two released blocks, the third call yields handle 2 -/
+example : (match run init [.localNew 0 true, .tlsFail 0 1 false, .tlsFail 0 1 true, .tlsFail 0 1 false, .keyCreate 0 1, .keyCas 0 1,
+      .getLocal 0 1, .setLocal 0 1 5, .replaceLocal 0 1 6, .currentFail 0, .keyCreate 0 0, .keyCas 0 0, .currentFail 0, .current 0] with
+    | .ok s => some (s.getLog, s.dtorLog, s.freeLog, s.curLog, s.nN)
+    | .error _ => none) = some ([(0, 1, 0), (0, 1, 0)], [(0, 1, 5)], [0, 1], [(0, 2)], 2) := by rfl
+example : PV.UThreadSpec.obsRun init [.localNew 0 true, .tlsFail 0 1 false, .tlsFail 0 1 true, .currentFail 0, .keyCreate 0 0, .keyCas 0 0,
+      .currentFail 0, .current 0] =
+    PV.UThreadSpec.specRun {} [.localNew 0 true, .tlsFail 0 1 false, .tlsFail 0 1 true, .currentFail 0, .keyCreate 0 0, .keyCas 0 0,
+      .currentFail 0, .current 0] := by rfl
+/-- neither failure is an event once the key has a native key / the thread has its handle stored -/
+example : (match run init [.localNew 0 true, .keyCreate 0 1, .keyCas 0 1] with
+    | .ok s => step s (.tlsFail 0 1 true) | .error e => .error e) = .error .notEnabled := by rfl
+example : (match run init [.keyCreate 0 0, .keyCas 0 0, .current 0] with
+    | .ok s => step s (.currentFail 0) | .error e => .error e) = .error .notEnabled := by rfl
 
 /-- a key released with `p_uthread_local_free` while a thread still holds a value under it: the native key is
     deleted and its block freed once, and the thread's end calls no notifier for the dropped value 5 (only the
